@@ -615,6 +615,9 @@ class err_gs(err_node):
         """
         Params:     visitor - ref to visitor class
         """
+        if self.is_closed():
+            # errors in the elements of the GE segment are recorded after close()
+            self.ack_code = self._get_ack_code()
         visitor.visit_gs_pre(self)
         for child in self.children:
             child.accept(visitor)
@@ -761,6 +764,9 @@ class err_st(err_node):
         """
         Params:     visitor - ref to visitor class
         """
+        if self.is_closed():
+            # errors in the elements of the SE segment are recorded after close()
+            self.ack_code = 'R' if self.err_count() > 0 else 'A'
         visitor.visit_st_pre(self)
         for child in self.children:
             child.accept(visitor)
